@@ -44,7 +44,11 @@ pub struct Scanline<V: Vary> {
 /// left and right endpoints as it goes.
 pub struct ScanlineIter<V: Vary> {
     y: f32,
-    left: <Varyings<V> as Vary>::Iter,
+    // End points of the left edge, the interpolation parameter of the first
+    // scanline along it, and the change of the parameter per scanline
+    left: (Varyings<V>, Varyings<V>),
+    t0: f32,
+    dt_dy: f32,
     // x coordinates of the left and right edge on the first scanline,
     // their change per scanline, and the number of scanlines emitted
     xs0: (f32, f32),
@@ -80,7 +84,14 @@ impl<V: Vary> Iterator for ScanlineIter<V> {
         if self.n == 0 {
             return None;
         }
-        let v0 = self.left.next()?;
+        // Interpolate the varyings on the left edge between its end points
+        // rather than stepping them by repeated addition: the rounding error
+        // of a large start value (such as 1/w of a near vertex) would
+        // accumulate over the scanlines and swamp a small end value
+        let v0 = self
+            .left
+            .0
+            .lerp(&self.left.1, self.t0 + self.k * self.dt_dy);
         let y = self.y;
 
         // Compute the edge positions from the scanline number rather than by
@@ -235,16 +246,18 @@ pub fn scan<V: Vary>(
 
     let y_tweak = y0_rounded - y0;
 
-    // Adjust varyings to correspond to the aligned y value
-    let l0 = l0.lerp(&l0.step(&dl_dy), y_tweak);
-    let r0 = r0.0.x() + dr_dy.0.x() * y_tweak;
+    // Adjust the edge positions to correspond to the aligned y value
+    let xl0 = l0.0.x() + dl_dy.0.x() * y_tweak;
+    let xr0 = r0.0.x() + dr_dy.0.x() * y_tweak;
 
     ScanlineIter {
         y: y0_rounded,
-        xs0: (l0.0.x(), r0),
+        left: (l0.clone(), l1.clone()),
+        t0: y_tweak * recip_dy,
+        dt_dy: recip_dy,
+        xs0: (xl0, xr0),
         dxs_dy: (dl_dy.0.x(), dr_dy.0.x()),
         k: 0.0,
-        left: l0.vary(dl_dy, None),
         dv_dx,
         n: (y1_rounded - y0_rounded) as u32, // saturates to 0
     }
